@@ -244,6 +244,11 @@ func equals(t types.Type, x, y value) bool {
 		return x.eq(t, y)
 	case rtype:
 		return x.eq(t, y)
+	case absBytes:
+		if yb, ok := y.(absBytes); ok {
+			return sameTerm(x.t, yb.t)
+		}
+		return sameTerm(x.t, bytesTerm(y))
 	}
 
 	// Since map, func and slice don't support comparison, this
